@@ -93,6 +93,20 @@ def check_C14(tier, seed):
             k = s["op"] + ("/inplace" if s["inplace"] else "") + ("/error" if s["outcome"] == "error" else "")
             ops[k] = ops.get(k, 0) + 1
     run_dimset_traces(out, "C14", tier)
+    if tier == "thorough":
+        # histories of ANY length: the state space over a finite alphabet is finite; with the history variables hidden TLC visits
+        # every reachable state and checks the invariant and the action property on every transition (about 10 min on 16 cores)
+        m = Model("MC_DimSets.tla", {"Scenario": "closure", "Depth": 0, "MaxLen": 3, "Alphabet": set(A4), "Emit": False,
+                                     **{f"{x}{i}": "" for x in "ST" for i in (1, 2, 3)}},
+                  invariants=["Prop_Unique"], properties=["Prop_Receiver"], workers=14, expect_vectors=False, view="ClosureView",
+                  label="MC_DimSets/closure (unbounded histories, alphabet A B C A2)")
+        res = core.run_model(m, seed=seed)
+        out.add_tlc(m, res)
+        out.extra["unbounded_history_closure"] = {"alphabet": A4, "reachable_states": res.distinct, "transitions_checked": res.generated}
+        out.assumptions.append(
+            "closure scenario (thorough): NO depth bound - every state reachable by histories of any length over the alphabet A, B, C, A2 "
+            "(three registers + one array, sets of any length) is visited with the history variables hidden by a VIEW; UniqueInv and the action "
+            "property ReceiverUnchanged hold on all of them: for this alphabet the specification satisfies C14 for ALL histories")
     out.exhaustive = True
     out.assumptions += [
         "direction B: seeded random programs of 30 (thorough 40) calls over four registers and an alphabet of ten dimensions on seven letters "
